@@ -29,6 +29,19 @@ func (d wdoc) AddPage(left, top, right, bottom backend.Fl) backend.Page {
 	return &wcanvas{Canvas: p, page: p, rec: d.Rec}
 }
 
+// EmbedFile / SetAttachments: the Rec keeps the id resp. the count only.
+func (d wdoc) EmbedFile(id string, a backend.Attachment) {
+	d.Rec.EmbedFile(id, a)
+	d.Rec.Events = append(d.Rec.Events, render.Ev{Op: "EmbedFileBytes", S: fmt.Sprintf("%q %q %s", a.Title, a.Description, sum(a.Content))})
+}
+
+func (d wdoc) SetAttachments(as []backend.Attachment) {
+	d.Rec.SetAttachments(as)
+	for _, a := range as {
+		d.Rec.Events = append(d.Rec.Events, render.Ev{Op: "Attachment", S: fmt.Sprintf("%q %q %s", a.Title, a.Description, sum(a.Content))})
+	}
+}
+
 // wcanvas wraps a page or a group canvas of the Rec.
 type wcanvas struct {
 	backend.Canvas              // the Rec's canvas
